@@ -191,6 +191,13 @@ func genC02(w *World, res *CheckResult) {
 				cur := o.St.Load(slot.One(), SVal)
 				errSet := Not(Eq(o.St.Load(LocField(fv.One(), errOff), SLoc), NilLoc))
 				replaced := Not(Eq(cur, old))
+				// a compile-time rejection is reported at the operator of the failing operation (its node's location)
+				{
+					ep := o.St.Load(LocField(fv.One(), errOff), SLoc)
+					same := And(Eq(o.St.Load(LocField(ep, 0), SBV(64)), o.St.Load(LocField(bn, 0), SBV(64))),
+						Eq(o.St.Load(LocField(ep, 1), SBV(64)), o.St.Load(LocField(bn, 1), SBV(64))))
+					e.AddVC(cell+"/post:error-at-operator", "post", foldFn.String(), o.St, And(errSet, Not(same)), "an error raised while folding carries the location of the operation that fails")
+				}
 				// the value the compiler pushes for the replacement
 				var folded *Term
 				isInt := dynTypeTest(cur, types.NewPointer(w.namedType("ast", "IntegerNode")))
